@@ -484,6 +484,11 @@ class EscapeAnalysis:
                     if self._key_collection(fi, inner):
                         self.n_ops += 1
                         out.append((n, ("TypeError",), self._root_name(inner) or unparse(inner), f"join over {short(inner, 40)}: keys of a document map need not be strings"))
+                # ordering: sorted()/min()/max() over the keys of a document map compares them with each other — keys of
+                # different YAML types (1 and 'a') are not orderable; a key function or a conversion of the elements is fine
+                if d in ("sorted", "min", "max") and n.args and not any(k.arg == "key" for k in n.keywords) and self._key_collection(fi, n.args[0]):
+                    self.n_ops += 1
+                    out.append((n, ("TypeError",), self._root_name(n.args[0]) or unparse(n.args[0]), f"{d}({short(n.args[0], 40)}) orders keys of a document map: keys of different types (a number and a string) cannot be compared"))
                 if isinstance(n.func, ast.Attribute) and n.func.attr in ("get", "setdefault", "add", "pop", "discard", "remove") and n.args:
                     tr = (self.types.type_str(fi.module, n.func.value) or "").split("[")[0].split(".")[-1].lower()
                     k0 = n.args[0]
